@@ -4,7 +4,6 @@ package main
 
 import (
 	"context"
-	"crypto/sha512"
 	"encoding/binary"
 	"encoding/json"
 	"fmt"
